@@ -71,6 +71,13 @@ def check(run, prog, tier):
                       "eigenvector matrix is indexed [site, exciton]", minimum=2)
     rule_I(run, prog, "C12-I", "for uncoupled molecules the widths are then permuted among the molecules and the response is no "
                                "longer the sum of the molecules' responses")
+    run.rule("C12-N", "the response calculator generates the pathways of every calculation from the system and the laboratory set-up "
+                      "as they are now: no pathway list or prefactor kept from an earlier call (a set-up object is changed in place "
+                      "by set_pulse_polarizations)", minimum=1)
+    from . import memorule
+    memorule.check(run, prog, "C12-N", ["quantarhei.spectroscopy.mocktwodcalculator.MockTwoDResponseCalculator",
+                                         "quantarhei.spectroscopy.labsetup.LabSetup"],
+                   "pathways kept from an earlier call carry the orientational prefactors of the earlier polarisations")
     run.rule("C12-M", "the pathway generators diagonalize an aggregate that is not diagonalized yet: no call placed under the very "
                       "condition under which the callee returns at once", minimum=2)
     rule_M(run, prog)
